@@ -363,4 +363,60 @@ theorem createFromPrimitive_norm_mem_conj_mul (p : ℤ) (x : Elem) (N : ℤ) (O 
   rw [hnorm] at hIn ⊢
   exact norm_mem_conj_mul g hgI hIn.norm_mem hNg hcq
 
+/-! ## `make_primitive_then_create` -/
+
+theorem content_nonneg (v : Vec4) : 0 ≤ v.content := by unfold Vec4.content; exact SqiProofs.QuatLattice.ibzGcd_nonneg _ _
+
+theorem content_smul (g : ℤ) (v : Vec4) : (v.map (fun t => t * g)).content = |g| * v.content := by
+  obtain ⟨a, b, c, d⟩ := v
+  simp only [Vec4.content, Vec4.map, ibzGcd]
+  have h : ∀ x y : ℤ, ((Int.gcd (x * g) (y * g) : ℕ) : ℤ) = |g| * (Int.gcd x y : ℕ) := by
+    intro x y
+    rw [Int.gcd_mul_right, Nat.cast_mul, Int.natCast_natAbs, mul_comm]
+  have h' : ∀ (x : ℤ) (k : ℕ), ((Int.gcd (x * g) (|g| * (k : ℤ)) : ℕ) : ℤ) = |g| * (Int.gcd x k : ℕ) := by
+    intro x k
+    have e1 : x * g = g * x := mul_comm _ _
+    rcases abs_choice g with hg | hg
+    · rw [hg, e1, Int.gcd_mul_left, Nat.cast_mul, Int.natCast_natAbs, hg]
+    · rw [hg, e1, show -g * (k : ℤ) = g * (-(k : ℤ)) by ring, Int.gcd_mul_left, Nat.cast_mul, Int.natCast_natAbs,
+        Int.gcd_neg, hg.symm.symm]
+  rw [h a b, h' c, h' d]
+
+/-- the primitive part has content 1 -/
+theorem content_div_content (c : Vec4) (h0 : c.content ≠ 0) : (c.map (fun t => Int.tdiv t c.content)).content = 1 := by
+  obtain ⟨d0, d1, d2, d3⟩ := content_dvd c
+  set g := c.content with hg
+  have hgpos : 0 < g := lt_of_le_of_ne (content_nonneg c) (Ne.symm h0)
+  have e : (c.map (fun t => Int.tdiv t g)).map (fun t => t * g) = c := by
+    obtain ⟨a, b, cc, d⟩ := c
+    simp only [Vec4.map, Vec4.mk.injEq]
+    exact ⟨Int.tdiv_mul_cancel d0, Int.tdiv_mul_cancel d1, Int.tdiv_mul_cancel d2, Int.tdiv_mul_cancel d3⟩
+  have := content_smul g (c.map (fun t => Int.tdiv t g))
+  rw [e, ← hg, abs_of_pos hgpos] at this
+  have : g * 1 = g * (c.map (fun t => Int.tdiv t g)).content := by rw [mul_one]; exact this
+  exact (mul_left_cancel₀ h0 this).symm
+
+/-- **`quat_lideal_make_primitive_then_create`** (full): for `x ∈ O`, `x ≠ 0` (content ≠ 0), `O` certified, the constructor is
+    `create_from_primitive` on a *primitive* element `y` of `O` with `x = content·y` and on `N / gcd(content, N)`; hence all
+    theorems about `create_from_primitive` with primitive generator apply, in particular norm² = index. -/
+theorem makePrimitiveThenCreate_spec (p : ℤ) (x : Elem) (N : ℤ) (O : Lattice) (prev : ℤ)
+    (ho : isOrderCert p O = true) (hx : x.denom ≠ 0) (hxO : (latContains O x).1 = true)
+    (hc0 : (makePrimitive O x).2 ≠ 0) :
+    let y : Elem := ⟨O.denom, O.basis.eval (makePrimitive O x).1⟩
+    makePrimitiveThenCreate p x N O prev =
+      createFromPrimitive p y (Int.tdiv N (Int.gcd (makePrimitive O x).2 N)) O prev ∧
+    (latContains O y).1 = true ∧ isPrimitive O y = true ∧
+    val p x = ((makePrimitive O x).2 : ℤ) • val p y := by
+  intro y
+  obtain ⟨hd, hnO, _, _⟩ := isOrderCert_sound p O ho
+  have hcoords : SqiProofs.QuatLattice.CoordsOf O y (makePrimitive O x).1 := by
+    unfold SqiProofs.QuatLattice.CoordsOf; rfl
+  have hcomp := SqiProofs.QuatLattice.latContains_complete O y (makePrimitive O x).1 hd hnO.1
+    (fun r hr => ne_of_gt (hnO.2 r hr).1) hcoords
+  refine ⟨rfl, by rw [hcomp], ?_, makePrimitive_val p O x hd hx hxO⟩
+  unfold isPrimitive makePrimitive
+  rw [hcomp]
+  simp only [beq_iff_eq]
+  exact content_div_content _ hc0
+
 end SqiProofs.IdealPrim
